@@ -68,6 +68,9 @@ func (m *Round2Broadcast[G, S]) Validate(p *Participant[G, S], senderID sharing.
 	if m == nil || m.Message == nil || m.Message.X == nil || m.Message.Rho == nil || m.Message.A == nil {
 		return ErrValidationFailed.WithMessage("nil argument")
 	}
+	if utils.IsNil(m.Message.A.A) {
+		return ErrValidationFailed.WithMessage("nil proof commitment")
+	}
 	if m.U == ([hashcom.DigestSize]byte{}) {
 		return ErrValidationFailed.WithMessage("empty witness")
 	}
@@ -126,6 +129,12 @@ type Round3Broadcast[G algebra.PrimeGroupElement[G, S], S algebra.PrimeFieldElem
 func (m *Round3Broadcast[G, S]) Validate(*Participant[G, S], sharing.ID) error {
 	if m == nil || m.Psi == nil {
 		return ErrValidationFailed.WithMessage("nil argument")
+	}
+	if a := m.Psi.Commitment(); a == nil || utils.IsNil(a.A) {
+		return ErrValidationFailed.WithMessage("nil proof commitment")
+	}
+	if z := m.Psi.Response(); z == nil || utils.IsNil(z.Z) {
+		return ErrValidationFailed.WithMessage("nil proof response")
 	}
 
 	return nil
